@@ -46,6 +46,8 @@ class Interp:
         return f.qualname
 
     def truth(self, v):
+        if isinstance(v, dict) and getattr(v, 'sym', None) is not None:
+            return v.truth(self)
         if isinstance(v, bool) or v is None or isinstance(v, (int, str, float, list, dict, set, tuple, frozenset)):
             return bool(v)
         if is_symbool(v):
@@ -112,7 +114,8 @@ class Interp:
         return set(self.eval(e, fr) for e in n.elts)
 
     def e_Dict(self, n, fr):
-        d = {}
+        from .symseq import LazyDict
+        d = LazyDict()
         for k, v in zip(n.keys, n.values):
             if k is None:
                 d.update(self.eval(v, fr))
@@ -315,6 +318,12 @@ class Interp:
         return v.val
 
     def binop(self, op, a, b, node=None):
+        if hasattr(a, 'binop_'):
+            return a.binop_(self, op, b, node)
+        if hasattr(b, 'rbinop_'):
+            return b.rbinop_(self, op, a, node)
+        if isinstance(op, ast.Sub) and hasattr(a, 'binop_sub'):
+            return a.binop_sub(self, b)
         if isinstance(a, OptInt) or isinstance(b, OptInt):
             a, b = self.opt_unwrap(a, node), self.opt_unwrap(b, node)
         if isinstance(a, View) or isinstance(b, View):
@@ -1171,6 +1180,9 @@ class Interp:
         env = fr.locals
         is_for = isinstance(s, (ast.For, ast.AsyncFor))
         g = {}
+        set_proto = is_for and getattr(iterable, 'set_protocol', False)
+        if set_proto:
+            return self.loop_over_map(s, fr, spec, iterable, name)
         if is_for:
             if isinstance(iterable, (list, tuple)):
                 from .symseq import BufSeq
@@ -1208,6 +1220,8 @@ class Interp:
                 pass
             except BreakSig:
                 return            # continue after the loop with the state at the break
+            if getattr(spec, 'update', None):
+                spec.update(self, pre_env, env, g)          # ghost code executed at the end of every iteration
             if is_for:
                 g['i'] = g['i'] + 1
             for label, claim in spec.inv(self, env, g).items():
@@ -1226,6 +1240,57 @@ class Interp:
             else:
                 if self.branch(self.eval(s.test, fr), f'L{s.lineno}.while'):
                     raise PathEnd('guard true in exit path')
+            fr.locals['__loop_ghost__'] = g
+            self.exec_block(s.orelse, fr)
+
+    def loop_over_map(self, s, fr, spec, items, name):
+        """`for k, v in m.items()` / `for k in m.keys()` over a symbolic map: arbitrary order; ghost g['visited'] is the
+        set of keys already handled; the loop ends when every key of the map (as it was at the loop head) was visited"""
+        from .symseq import KeyTok, BOOLROW
+        run, env = self.run, fr.locals
+        m = items.m
+        dom0 = m.dom
+        g = {'map': m, 'dom': dom0, 'visited': z3.K(INT, z3.BoolVal(False))}
+        if spec.ghost:
+            g.update(spec.ghost(self, env, g))
+        for label, claim in spec.inv(self, env, g).items():
+            run.oblige(f'{name}.inv.entry:{label}', claim)
+        targets = assigned_names(s.body) | assigned_names([ast.Assign(targets=[s.target], value=ast.Constant(value=None))])
+        which = run.choose([('body', True), ('exit', True)], f'loop{getattr(s, "_ordinal", "")}')
+        spec.havoc(self, env, g, targets)
+        V = z3.Const(run.fresh_name('visited'), BOOLROW)
+        kq = z3.Int('k!vis')
+        run.assume(z3.ForAll([kq], z3.Implies(z3.Select(V, kq), z3.Select(dom0, kq))))
+        g['visited'] = V
+        for label, claim in spec.inv(self, env, g).items():
+            run.assume(claim)
+        if which == 'body':
+            k = run.fresh_int('key')
+            run.assume(z3.And(z3.Select(dom0, k), z3.Not(z3.Select(V, k))))
+            key = KeyTok(k)
+            g['key'] = key
+            if items.what == 'items':
+                from .symseq import SymMap
+                cur = SymMap(run, 'at-head', dom0, m.val, m.none)
+                self.assign_target(s.target, (key, cur.lookup(key)), fr)
+            else:
+                self.assign_target(s.target, key, fr)
+            pre_env = dict(env)
+            try:
+                self.exec_block(s.body, fr)
+            except ContinueSig:
+                pass
+            except BreakSig:
+                return
+            g['visited'] = z3.Store(V, k, z3.BoolVal(True))
+            for label, claim in spec.inv(self, env, g).items():
+                run.oblige(f'{name}.inv.preserve:{label}', claim)
+            if spec.step:
+                for label, claim in spec.step(self, pre_env, env, g).items():
+                    run.oblige(f'{name}.step:{label}', claim)
+            raise PathEnd('loop body path complete')
+        else:
+            run.assume(z3.ForAll([kq], z3.Implies(z3.Select(dom0, kq), z3.Select(V, kq))))
             fr.locals['__loop_ghost__'] = g
             self.exec_block(s.orelse, fr)
 
@@ -1347,6 +1412,8 @@ class Interp:
         if f.is_async and f.is_gen and '__yielded__' not in fr.locals:
             fr.locals['__yielded__'] = []
         self.call_stack.append(self.fullname(f))
+        if len(self.call_stack) == 1:
+            self.top_locals = fr.locals          # ghost access for postconditions of the function under proof
         try:
             if isinstance(f.node, ast.Lambda):
                 return self.eval(f.node.body, fr)
